@@ -891,7 +891,7 @@ impl Property for C02 {
 		600
 	}
 	fn cases(&self, tier: Tier) -> u64 {
-		tier.pick(150_000, 3_000_000)
+		tier.pick(450_000, 3_000_000)
 	}
 
 	fn run(&self, tape: &[u32], ctx: &mut Ctx) -> CaseResult {
